@@ -3,11 +3,12 @@
 id=$1; shift
 cd /verif
 git -C /repo status --short | grep -q . && { echo "repo dirty"; exit 2; }
-git -C /repo apply --3way /verif/seeded/$id/patch.diff 2>/dev/null || git -C /repo apply /verif/seeded/$id/patch.diff || { echo "patch does not apply"; exit 2; }
+git -C /repo apply --check /verif/seeded/$id/patch.diff 2>/dev/null && git -C /repo apply /verif/seeded/$id/patch.diff || { git -C /repo apply --3way /verif/seeded/$id/patch.diff 2>/dev/null || { git -C /repo reset -q --hard HEAD; echo "patch does not apply"; exit 2; }; }
+if grep -rq "^<<<<<<< " /repo/src /repo/crates 2>/dev/null; then git -C /repo reset -q --hard HEAD; echo "patch conflicts"; exit 2; fi
 git -C /repo reset -q 2>/dev/null
 for c in "$@"; do
   ./check $c --tier quick > /tmp/seedtest.$id.$c.log 2>&1; rc=$?
   echo "seed=$id check=$c rc=$rc $(grep -c '^VIOLATION' /tmp/seedtest.$id.$c.log) violation lines; $(grep '^VIOLATION' /tmp/seedtest.$id.$c.log | head -3 | sed 's/.*# //' | tr '\n' ';')"
   grep -E "TOOL-ERROR" -A5 /tmp/seedtest.$id.$c.log | head -8
 done
-git -C /repo checkout -- . ; git -C /repo status --short
+git -C /repo reset -q --hard HEAD; git -C /repo status --short
